@@ -69,6 +69,10 @@ CHECKS["C01"] = dict(cat="model_checking", design="DESIGN.md §4 C01",
    text="Seeded random full-feature packages, single-field-kind packages, SQL model files covering the TLC-exported column universe of PgDDLModel.tla and fixed witnesses are run through the three real Go generators (sqlcrud with generate-sets off and on); every accepted output goes through the import fixing pass and is type-checked by go/types inside its source package (lib/pq resolved to a stand-in with the same API). TraceGoIdents.tla applies the acceptance rule (refusal with a diagnostic is allowed, a crash is not) and the identifier-level invariants (no identifier declared twice, none clashing with the package) before the type errors. GoIdents.tla models the identifiers gounions derives and TLC shows them clash-free outside the recorded class.",
    note="The typing judgment is go/types' and the import fixing is x/tools/imports: TLA+ contributes the input universe (column kinds), the acceptance bookkeeping and the identifier model, not a Go type checker. Inputs are sampled; each accepted (package, generator) pair reports its first error only.",
    tech="go/types type-checking of real generator output inside TLC-exported / seeded source packages, judged by a TLA+ trace spec (TraceGoIdents.tla); TLA+ model of derived identifiers (GoIdents.tla) checked by TLC")
+CHECKS["C13"] = dict(cat="model_checking", design="DESIGN.md §4 C13",
+   text="HttpApi.tla defines the endpoint list expected for an abstract route file: one entry per verb registration in source order, URL by constant folding of the path expression, and the contract read from the handler body (bound input, JSON / pretty / blob return, plain, typed and generic query parameters with their types, form values, form file, JSON form field), for handlers given as methods on value or pointer variables, functions, imported functions and methods, and function literals, with the prefix filter. HttpApiModel.tla fixes the dimension value sets; TLC checks the definition is well-formed on them and exports them; the harness renders seeded route files from them and TraceHttp.tla requires the real extractor's result to equal the expectation entry by entry.",
+   note="Trusted: TLC; the renderer of route files (type-checked by the real loader before use). Exactness property: the expectation is the property's own definition. Only the documented handler idioms are generated (assignment forms).",
+   tech="TLA+ definition of the expected endpoint list (HttpApi.tla) with TLC-exported dimensions (HttpApiModel.tla) + verdict-style trace validation (TraceHttp.tla) of the real extractor on synthesised route files")
 NOT_APPLICABLE = {}
 ALL = ["C%02d" % i for i in range(1, 21)]
 
